@@ -194,6 +194,12 @@ func (e *Engine) callFunction(st *State, fn *ssa.Function, args []Value, binding
 		e.trust("model " + shortFn(m) + " stands for " + name)
 		fn = m
 		name = shortFn(fn)
+	} else if o := fn.Origin(); o != nil {
+		if m, ok := e.W.Models[shortFn(o)]; ok {
+			e.trust("model " + shortFn(m) + " stands for " + shortFn(o))
+			fn = m
+			name = shortFn(fn)
+		}
 	}
 	// 3. natively modelled library functions
 	if r, out, ok := e.native(st, fn, name, args, pos); ok {
